@@ -7,6 +7,7 @@ numeric domain.  Nothing of the target crate is executed.
 """
 from __future__ import annotations
 
+import json
 import sys
 
 from . import pp
@@ -255,6 +256,10 @@ class Interp:
             for i, e in enumerate(v.elems):
                 if isinstance(e, VArray):
                     self.name_table(e, f"{name}[{i}]")
+        elif isinstance(v, VSlice) and v.elem[0] == 'vals':
+            self.name_table(v.elem[1], name)            # a reference to the table (unsized to a slice)
+        elif isinstance(v, VRef) and v.root[0] == 'val':
+            self.name_table(v.root[1], name)
 
     def const_operand(self, st, o) -> Val:
         if 'ref' in o:
@@ -266,7 +271,31 @@ class Interp:
                 self.name_table(v, key)
                 self.const_cache[key] = v
             return v
-        return self.const_val(st, o['val'], o['ty'])
+        v = self.const_val(st, o['val'], o['ty'])
+        # an inlined copy of a named constant table (e.g. the promoted `&TABLE`): same provenance as the named one
+        inner = o['val']
+        while isinstance(inner, dict) and inner.get('c') == 'ref':
+            inner = inner.get('v')
+        if isinstance(inner, dict) and inner.get('c') in ('array', 'slice') and len(inner.get('v') or ()) >= 2:
+            nm = self.table_names().get(json.dumps(inner, sort_keys=True))
+            if nm is not None:
+                self.name_table(v, nm)
+        return v
+
+    def table_names(self):
+        """content -> def path of the crate's named constant arrays"""
+        t = getattr(self, '_table_names', None)
+        if t is None:
+            t = {}
+            for d, c in self.facts.consts.items():
+                val = c.get('val')
+                while isinstance(val, dict) and val.get('c') == 'ref':
+                    val = val.get('v')
+                if isinstance(val, dict) and val.get('c') in ('array', 'slice') and len(val.get('v') or ()) >= 2:
+                    k = json.dumps(val, sort_keys=True)
+                    t[k] = None if k in t else d          # ambiguous content: no name
+            self._table_names = t
+        return t
 
     # ------------------------------------------------------------------ places
     def resolve(self, st: State, fid, place):
@@ -409,15 +438,8 @@ class Interp:
         e = sl.elem
         pos = sl.off.add(idx)
         if e[0] == 'vals':
-            arr = e[1]
-            lo, hi = st.num.rng(pos)
-            n = len(arr.elems)
-            lo, hi = max(lo, 0), min(hi, n - 1)
-            if lo > hi:
-                raise Infeasible()
-            if lo == hi:
-                return arr.elems[lo]
-            return self.vjoin_many(st, list(arr.elems[lo:hi + 1]))
+            # same reading as a place projection table[i] (keeps the table / index provenance of named constant tables)
+            return self.index(st, e[1], VInt(pos, 'usize'))
         if e[0] == 'cbytes':
             bs = e[1]
             lo, hi = st.num.rng(pos)
